@@ -182,3 +182,12 @@ Definition run_priv (fixed : bool) (inp : list Z) : list Z :=
 
 Definition run_events (fixed : bool) (c : pcfg) (s : pst) (evs : list pev) : pst :=
   fold_left (fun s e => fst (pstep fixed c s e)) evs s.
+
+(* ---- user agent per torrent when torrents share a tracker URL (kind 1903) ----
+   the agent is a function of the torrent's own private flag, not of who used the URL first *)
+Definition agent_of (private : bool) : Z := if private then 1 else 0.
+Definition run_shared_tracker (inp : list Z) : list Z :=
+  match inp with
+  | [_] => [agent_of false; agent_of true]
+  | _ => [-779]
+  end.
